@@ -174,7 +174,7 @@ func (h *harness) mkSpec(d specDef) spectypes.Spec {
 
 type horizonPanic struct{}
 
-const stepHorizon = 2000
+const stepHorizon = 256
 
 // expandOnce runs the keeper's expansion of root in ctx. It first runs DoExpandSpec (the function the
 // keeper's ExpandSpec delegates to) with a call-counting GetSpec so that non-termination shows up as a
